@@ -71,6 +71,10 @@ def Call.sid : Call → Nat
   | .requestStream s .. => s | .requestResponse s _ => s | .fnf s _ => s
   | _ => 0
 
+/-- `helpers.payload_from_frame`: the `Payload(frame.data, frame.metadata)` handed to the application,
+as (metadata, data) -/
+def payloadFromFrame (f : Frame) : Bytes × Bytes := (f.md, f.data)
+
 /-! ### meaning of the generated definitions -/
 
 def ov : Option Bytes → Val
